@@ -106,6 +106,7 @@ func runNode(events []string, props []string, args map[string]string) (res vx.Re
 		n.step = i
 		gFrom := len(s.gLog)
 		a := s.apply(ev)
+		crashedHere := s.st.f.frozen
 		if s.st.f.frozen {
 			n.stop()
 			durable := s.snapshotStoresOnly()
@@ -125,6 +126,9 @@ func runNode(events []string, props []string, args map[string]string) (res vx.Re
 		}
 		s.drain(false)
 		after := s.snapshot()
+		if crashedHere {
+			o.afterRedelivery(before, after)
+		}
 		o.afterStep(before, after, a)
 		o.checkOutputs(gFrom, len(s.sLog))
 		s.noteRoundEnd(before, after)
